@@ -742,15 +742,21 @@ class _Parser:
             parent_node[key] = copy.deepcopy(ft_aliases_node[alias])
             return
 
+        if type(node) is not collections.OrderedDict:
+            # Not a field type object (for example, a boolean feature
+            # value): nothing to resolve, and a later schema validation
+            # reports it if it's not valid here.
+            return
+
         # resolve nested field type aliases
         for pkey in self._ft_prop_names:
             self._resolve_ft_alias(ft_aliases_node, node, pkey, ctx_obj_name, alias_set)
 
         # Resolve field type aliases of structure field type node member
-        # nodes.
+        # nodes (a null members node means no members).
         pkey = self._struct_ft_node_members_prop_name
 
-        if pkey in node:
+        if node.get(pkey) is not None:
             for member_node, ft_prop_name in self._struct_ft_member_fts_iter(node[pkey]):
                 self._resolve_ft_alias(ft_aliases_node, member_node, ft_prop_name,
                                        ctx_obj_name, alias_set)
@@ -776,7 +782,8 @@ class _Parser:
 
         node = parent_node[key]
 
-        if node is None:
+        if type(node) is not collections.OrderedDict:
+            # not a field type object: no possible inheritance
             return
 
         # process children first
@@ -784,10 +791,10 @@ class _Parser:
             self._apply_ft_inheritance(node, pkey)
 
         # Process the field types of structure field type node member
-        # nodes.
+        # nodes (a null members node means no members).
         pkey = self._struct_ft_node_members_prop_name
 
-        if pkey in node:
+        if node.get(pkey) is not None:
             for member_node, ft_prop_name in self._struct_ft_member_fts_iter(node[pkey]):
                 self._apply_ft_inheritance(member_node, ft_prop_name)
 
